@@ -29,5 +29,11 @@ if '<!-- BEGIN GENERATED 11.4-11.5 -->' in txt:
     txt = re.sub(r'<!-- BEGIN GENERATED 11\.4-11\.5 -->.*<!-- END GENERATED 11\.4-11\.5 -->', lambda m: block, txt, flags=re.S)
 else:
     txt += "\n" + block + "\n"
+kf = json.load(open(root + '/known_findings.json'))
+t112 = ["| property | id | status | commit | what fails |", "|---|---|---|---|---|"]
+for e in kf:
+    t112.append("| %s | %s | %s | %s | %s |" % (e['property'], e['id'], e['status'], e.get('commit', ''), e['what'].replace('|', '\\|').replace('\n', ' ')[:460]))
+blk2 = "<!-- BEGIN GENERATED 11.2 TABLE -->\n" + "\n".join(t112) + "\n<!-- END GENERATED 11.2 TABLE -->"
+txt = re.sub(r'<!-- BEGIN GENERATED 11\.2 TABLE -->.*<!-- END GENERATED 11\.2 TABLE -->', lambda m: blk2, txt, flags=re.S)
 open(root + '/DESIGN.md', 'w').write(txt)
 print('seeds', n, 'yes', yes, 'after', after)
